@@ -53,6 +53,24 @@ fn one(inp: &Input, mask: &Option<Vec<bool>>) -> (String, String) {
     };
     let mut s = format!("OK NC {}", n_active);
     let mut du = format!(" DU {}", n_active);
+    // slots: after with_faces() the cell of generator i is still found at index i (None for generators that were not selected)
+    let mut slots_bad = 0usize;
+    for i in 0..inp.gens.len() {
+        let want = mask.as_ref().map_or(true, |m| m[i]);
+        match guarded(std::panic::AssertUnwindSafe(|| wf.get_cell_at(i).map(|c| c.idx))) {
+            Ok(Some(idx)) => {
+                if !want || idx != i {
+                    slots_bad += 1;
+                }
+            }
+            Ok(None) => {
+                if want {
+                    slots_bad += 1;
+                }
+            }
+            Err(_) => slots_bad += 1,
+        }
+    }
     for c in wf.cells_iter() {
         if let Err(e) = guarded(std::panic::AssertUnwindSafe(|| cell_tokens(c))) {
             return (String::new(), format!("WFPANIC {}", e));
@@ -70,6 +88,7 @@ fn one(inp: &Input, mask: &Option<Vec<bool>>) -> (String, String) {
         let b = cell_tokens(&c2.with_faces());
         s.push_str(&format!(" {} RT {} {}", a, same_core as u8, (a == b) as u8));
     }
+    s.push_str(&format!(" SLOTS {}", slots_bad));
     (du, s)
 }
 
